@@ -721,7 +721,7 @@ func main() {
 		ID:       "C21",
 		Level:    "model_checking",
 		Isolated: true,
-		Rule:     "every first-order C03 mutant of the 30 seed programs (as written; with CRLF line endings for 10 seeds (quick) or all (thorough); with a BOM for 6 seeds); every sequence up to the tier's length of template segments (text, tab, LF, CRLF, BOM, multi-byte rune, single and multi-line comments, valid and invalid {{ }} / {% %} code) in each of the 6 formats and inside <script> and an attribute; of Go statements (comments, multi-byte literals, raw strings, erroneous statements) in a function body and at top level; of raw bytes (C04's alphabet + multi-byte rune, CRLF, BOM, tab) as program and as template of each format; of Go tokens inside {{ }}, {% %}, {%% %%} and a function body; and the same segments as the file reached by render / import / extends in 2 and 3 file sets; and file sets whose error is raised by the emitter (a limit exceeded: 130 int, string or general registers, 300 string values) in a macro or in the body of the main file after, or of the file reached by, every pair of references among none / import / import _ / import with alias / import for / render / extends, with text, a multi-byte rune, a newline or a multi-line comment before and after the references. A case is non-trivial when the build returns a *scriggo.BuildError (its location is then checked)",
+		Rule:     "every first-order C03 mutant of the 30 seed programs (as written; with CRLF line endings for 10 seeds (quick) or all (thorough); with a BOM for 6 seeds); every sequence up to the tier's length of template segments (text, tab, LF, CRLF, BOM, multi-byte rune, single and multi-line comments, valid and invalid {{ }} / {% %} code) in each of the 6 formats and inside <script> and an attribute; of Go statements (comments, multi-byte literals, raw strings, erroneous statements) in a function body and at top level; of raw bytes (C04's alphabet + multi-byte rune, CRLF, BOM, tab) as program and as template of each format; of Go tokens inside {{ }}, {% %}, {%% %%} and a function body; and the same segments as the file reached by render / import / extends in 2 and 3 file sets; and file sets whose error is raised by the emitter (a limit exceeded: 130 int, string or general registers, 300 string values) in a macro or in the body of the main file after, or of the file reached by, every pair of references among none / import / import _ / import with alias / import for / render / extends, with text, a multi-byte rune, a newline or a multi-line comment before and after the references; sequences up to the tier's length of constructs that contain a line break without being a line (multi-line tags, attribute values and end tags, script and style strings continued with backslash-newline, template literals, comments, raw blocks, {%% %%} blocks, multi-line {{ }} and {% %}, CR and CRLF, Markdown URLs, links and code blocks) in HTML, <script>, .js, <style>, .css, Markdown, an attribute and JSON, followed by erroneous code on the same or on the next line; programs made of several files (go.mod, main.go, a package) with the error in main or in the package and a BOM in none, one or both, import cycles, missing packages, go.mod variants; and 22 statements that fail where they stand (render / import / extends of a missing, imported, other-format, cyclic or badly named file, extends in a rendered or imported file, label, loop, identifier, macro and end errors) placed in a file reached from the entry by 8 chains of one or two references. For the errors whose message names a token (undefined: X, X redeclared) Start..End must hold exactly that token in the new spaces. A case is non-trivial when the build returns a *scriggo.BuildError (its location is then checked)",
 		Assumptions: []string{
 			"files are read through a recording fs.FS; Path() must be a name the build opened and is looked up verbatim in the file set",
 			"Column counts runes, each invalid UTF-8 byte counting as one rune (utf8.RuneCountInString); Line counts '\\n' bytes",
